@@ -34,7 +34,7 @@ def generate(tier, rng):
     seq_sets = [[0], [0xFFFFFFFF], [1, 0x80000000]]
     if tier == "thorough":
         seq_sets.append([rng.getrandbits(32) for _ in range(4)])
-    for addr in (V4, V6):
+    for addr in (V4, V6, ("::ffff:10.0.0.9", "::ffff:10.0.0.1"), ("::ffff:10.0.0.9", "2001:db8::1")):
         for key in keys:
             cfg = Cfg(key=key)
             for seqs in seq_sets:
